@@ -95,7 +95,13 @@ func migrateApplyRun(cmd *cobra.Command, args []string, flags migrateApplyFlags,
 		return err
 	}
 	opts = append(opts, migrate.WithOperatorVersion(operatorVersion()), migrate.WithLogger(report))
-	ex, err := migrate.NewExecutor(client.Driver, dir, rrw, opts...)
+	prrw := rrw
+	if flags.dryRun {
+		// Computing the pending files may write a baseline
+		// revision. Don't write to the database on dry-run.
+		prrw = &dryRunRevisions{rrw}
+	}
+	ex, err := migrate.NewExecutor(client.Driver, dir, prrw, opts...)
 	if err != nil {
 		return err
 	}
